@@ -155,4 +155,29 @@ Proof.
   unfold s_vsub_assign, vsub_assign, vsub. destruct (length u =? length w) eqn:E; cbn [negb]; [|reflexivity].
   apply Nat.eqb_eq in E. unfold for_. rewrite Nat.sub_0_r. now apply upd_loop2.
 Qed.
+(* all of them at once: what a Props file pins as  model_is_source_<property>  *)
+Definition model_is_source_Vector : Prop :=
+  (forall u w, s_dot u w = dot u w) /\
+  (forall v, s_sum v = vsum v) /\
+  (forall v, s_product v = vproduct v) /\
+  (forall v (s e : nat), s_sum_slice v s e = sum_slice v s e) /\
+  (forall v (s e : nat), s_product_slice v s e = product_slice v s e) /\
+  (forall v, s_norm_1 v = Ok (norm_1 v)) /\
+  (forall v, s_vabs v = Ok (vabs v)) /\
+  (forall v x, s_assign v x = Ok (vassign v x)) /\
+  (forall v, s_vneg v = Ok (vneg v)) /\
+  (forall v s, s_vadd_scalar v s = Ok (vadd_scalar v s)) /\
+  (forall v s, s_vsub_scalar v s = Ok (vsub_scalar v s)) /\
+  (forall v s, s_vmul_scalar v s = Ok (vmul_scalar v s)) /\
+  (forall v s, s_vdiv_scalar v s = vdiv_scalar v s) /\
+  (forall v s, s_vscale v s = Ok (vscale v s)) /\
+  (forall s v, s_vscale_l s v = Ok (vscale_l s v)) /\
+  (forall v s, s_vdiv v s = vdiv v s) /\
+  (forall u w, s_vadd u w = vadd u w) /\
+  (forall u w, s_vsub u w = vsub u w) /\
+  (forall u w, s_vadd_assign u w = vadd_assign u w) /\
+  (forall u w, s_vsub_assign u w = vsub_assign u w).
+Lemma model_is_source_Vector_lemma : model_is_source_Vector.
+Proof. exact (conj src_dot (conj src_sum (conj src_product (conj src_sum_slice (conj src_product_slice (conj src_norm_1 (conj src_vabs (conj src_assign (conj src_vneg (conj src_vadd_scalar (conj src_vsub_scalar (conj src_vmul_scalar (conj src_vdiv_scalar (conj src_vscale (conj src_vscale_l (conj src_vdiv (conj src_vadd (conj src_vsub (conj src_vadd_assign src_vsub_assign))))))))))))))))))). Qed.
+
 End SrcEqVector.
